@@ -218,10 +218,11 @@ def classify_index(idx: Term, loopvar: Term) -> str:
     raise Misaligned(wit or "index set differs")
 
 
-def make_type_of(snap: Term, loopvar: Term):
-    """particle_type reads of the pair loop: snapshot.particle_type[i] -> 'i', [i+1:] -> 'j'."""
+def make_type_of(snap: Term, loopvar: Term, also=()):
+    """particle_type reads of the pair loop: snapshot.particle_type[i] -> 'i', [i+1:] -> 'j'.
+    `also`: other type arrays to be read the same way (reported separately by the caller as a wrong source)."""
     def type_of(t: Term) -> Optional[str]:
-        if t[0] == "sub" and t[1] == ("attr", snap, "particle_type"):
+        if t[0] == "sub" and (t[1] == ("attr", snap, "particle_type") or t[1] in also):
             return classify_index(t[2], loopvar)
         return None
     return type_of
